@@ -63,7 +63,7 @@ class CheckC10(core.Check):
     rule = (
         "every driver op runs under catch_unwind with a panic hook, the driver under a subprocess watchdog; case = a reachable "
         "session state (fresh honest prefix) followed by a batch of hostile calls whose buffer/message lengths sit on and around "
-        "every boundary the model computes; distinct key = (op, state class, pattern variant or input class, outcome class); "
+        "every boundary the model computes (incl. valid names longer than a hash block and than 255 bytes, built in both roles); distinct key = (op, state class, pattern variant or input class, outcome class); "
         "non-trivial = at least one hostile call executed (not skipped)"
     )
     assumptions = ["a panic caught by catch_unwind, a driver death or a reproducible hang is a violation; a watchdog firing only under load is inconclusive"]
@@ -162,6 +162,9 @@ class CheckC10(core.Check):
         elif what == "pskname":
             # psk modifiers at every position (in range, just out of range, far out of range) and in combinations
             mods = ["psk%d" % i for i in range(0, 13)] + ["psk255", "psk0+psk%d" % (parsed.nmsgs + 1), "psk%d+psk0" % (parsed.nmsgs + 1), "psk1+psk2+psk3+psk4+psk5", "fallback", "psk0+fallback"]
+            # numerals with leading zeros are accepted by the parser: they make names of any length (longer than a hash
+            # block, longer than 255 bytes), which are then hashed by the builder
+            mods += ["psk" + "0" * z + d for z in (3, 20, 26, 27, 28, 29, 30, 33, 60, 100, 218, 219, 220, 1000) for d in ("0", "1")]
             for m in mods:
                 nm = "Noise_%s%s_%s_ChaChaPoly_SHA256" % (pat, m, dh)
                 pid, qid = "P%d" % n, "Q%d" % n
